@@ -57,7 +57,10 @@ RULE = ("generated layouts under the scratch directory: regular packages (a fixe
         "kind); native namespace packages over 1..3 search paths (the first two of a run have 2 and 3 portions) with modules and regular subpackages in "
         "every portion, a nested namespace over a random non-empty subset of the portions and a second level, pkg_resources-style portions, imports across "
         "portions; stubs-only packages on the same / another search path; inspector pass-through modules (defaults whose __name__ is an int / list / None / "
-        "object, annotation objects with unparsable / parsable repr: all must dump and validate); each loaded statically and dynamically, with/without alias resolution, parser "
+        "object, annotation objects with unparsable / parsable repr: all must dump and validate); a docstring-matrix package (docstrings of each style on "
+        "every kind of object that make the parsers warn -- unknown parameters, missing types, malformed items -- and Sphinx fields naming dotted / "
+        "aliased / unresolvable attributes) under every parser (None / google / numpy / sphinx / auto) x docstring_options (None / {} / non-empty) x "
+        "static / inspected; `griffe dump -f` through the CLI with -d / -D / -x combinations; each loaded statically and dynamically, with/without alias resolution, parser "
         "none/google/numpy/sphinx, and dumped from: above everything, a search path, a namespace directory, the package directory, an unrelated "
         "directory, the file-system root; 1.5k/20k random (package path, module path, cwd) triples on API-built modules for the path functions; one "
         "builder case per function; one case per distinct node document and per whole document; mutated node documents for the validator tie; depth "
@@ -804,14 +807,14 @@ class Watchdog:
         signal.signal(signal.SIGALRM, self.old)
 
 
-def load_tree(search_paths, pkg: str, mode: str, parser, resolve: bool, stubs: bool = False):
+def load_tree(search_paths, pkg: str, mode: str, parser, resolve: bool, stubs: bool = False, options=None):
     """load `pkg` from the given (absolute) search paths; returns the live top object; raises whatever Griffe raises"""
     import griffe
     import logging
     logging.getLogger("griffe").setLevel(logging.CRITICAL)
     logging.getLogger("_griffe").setLevel(logging.CRITICAL)
     loader = griffe.GriffeLoader(search_paths=[str(p) for p in search_paths], docstring_parser=griffe.Parser(parser) if parser else None,
-                                 allow_inspection=True, force_inspection=(mode == "dynamic"))
+                                 docstring_options=options, allow_inspection=True, force_inspection=(mode == "dynamic"))
     old_limit = sys.getrecursionlimit()
     added = [str(p) for p in search_paths if str(p) not in sys.path] if mode == "dynamic" else []
     sys.path[0:0] = added
@@ -851,9 +854,9 @@ def dump_at(top, cwd):
     return ("ok", json.loads(text))
 
 
-def load_and_dump(root: Path, pkg: str, mode: str, parser, resolve: bool, search_paths=(".",), cwd=".", stubs=False):
+def load_and_dump(root: Path, pkg: str, mode: str, parser, resolve: bool, search_paths=(".",), cwd=".", stubs=False, options=None):
     """returns (live top object, document); raises DumpFailed when the dump raises, whatever Griffe raises when the load does"""
-    top = load_tree([(root / sp).resolve() for sp in search_paths], pkg, mode, parser, resolve, stubs)
+    top = load_tree([(root / sp).resolve() for sp in search_paths], pkg, mode, parser, resolve, stubs, options)
     where = Path(cwd) if str(cwd).startswith("/") else (root / cwd)
     where.mkdir(parents=True, exist_ok=True)
     out = dump_at(top, where)
@@ -1238,12 +1241,15 @@ def run_layout(st: State, root: Path, layout: dict, configs, cwds, direct_only=F
     ctx = st.ctx
     pkg = layout["package"]
     sps = [(root / sp).resolve() for sp in layout["search_paths"]]
-    for mode, parser, resolve in configs:
+    for mode, parser, resolve, *rest in configs:
+        options = rest[0] if rest else None
         label = {"package": pkg, "variant": layout["variant"], "mode": mode, "parser": parser, "resolve_aliases": resolve,
                  "search_paths": layout["search_paths"], "find_stubs_package": layout["stubs"], **(extra_label or {})}
-        ctx.observe("config", f"{layout['variant']}/{mode}/{parser}/resolve={resolve}")
+        if rest:
+            label["docstring_options"] = options
+        ctx.observe("config", f"{layout['variant']}/{mode}/{parser}/resolve={resolve}" + (f"/options={'none' if options is None else len(options)}" if rest else ""))
         try:
-            top = load_tree(sps, pkg, mode, parser, resolve, layout["stubs"])
+            top = load_tree(sps, pkg, mode, parser, resolve, layout["stubs"], options)
         except Exception as e:  # noqa: BLE001
             ctx.observe("load_exception", type(e).__name__)
             ctx.property_failure({**label, "files": layout["files"]}, {"load_raised": f"{type(e).__name__}: {str(e)[:300]}"}, finding=None)
@@ -1254,7 +1260,16 @@ def run_layout(st: State, root: Path, layout: dict, configs, cwds, direct_only=F
             try:
                 tree = abstract(top)
             except Exception as e:  # noqa: BLE001
-                ctx.tie_failure("harness", "abstraction of the live tree failed", f"{type(e).__name__}: {e}", label)
+                # reading `parsed` runs the docstring parser, as the full dump does: when the dump raises too, that is the failing input
+                where = Path(cwds[0]) if cwds[0].startswith("/") else (root / cwds[0]).resolve()
+                where.mkdir(parents=True, exist_ok=True)
+                outcome = dump_at(top, where)
+                if outcome[0] == "raised":
+                    ctx.observe("dump_exception", f"{outcome[1]}: {outcome[2][:24]}")
+                    ctx.property_failure({**label, "cwd": cwds[0], "files": layout["files"]},
+                                         {"full_dump_raised": f"{outcome[1]}: {outcome[2]}", "while": "docstrings are parsed during the dump"}, finding=None)
+                else:
+                    ctx.tie_failure("harness", "abstraction of the live tree failed", f"{type(e).__name__}: {e}", label)
                 continue
         if not direct_only:
             st.root = root
@@ -1537,6 +1552,112 @@ def check_paths(st: State):
                             {"model": r, "impl": got}, case)
 
 
+# --- docstrings are parsed WHILE the full dump is produced: every parser x options x static / inspected, on docstrings that make the
+# parsers warn (unknown parameters, missing types, malformed items) and on Sphinx fields naming dotted / aliased / unresolvable attributes
+
+DOC_GOOGLE = ("Summary.\n\nParameters:\n    nope: Unknown parameter.\n    (int): Malformed.\n    a (int): Known.\n\nAttributes:\n    Y\n    KNOWN: Known.\n\n"
+              "Returns:\n    No type here.\n\nRaises:\n    bad item\n\nYields:\n    Nothing typed.\n\nOther Parameters:\n    ghost (str): Unknown keyword.\n")
+DOC_NUMPY = ("Summary.\n\nParameters\n----------\nnope\n    Unknown.\na : int\n    Known.\n\nReturns\n-------\n\nAttributes\n----------\nY\n\n"
+             "Raises\n------\n\nWarns\n-----\nUserWarning\n")
+DOC_SPHINX = ("Summary.\n\n:param nope: Unknown.\n:param int: Malformed.\n:param str a: Known.\n:type ghost: int\n:var settings.DEBUG: Dotted, through an import of a package that is not loaded.\n"
+              ":var settings: The unresolvable import itself.\n:var os.sep: Dotted, through an import of the standard library.\n:var sibling.VALUE: Dotted, through a loaded module.\n"
+              ":var missing.attr: Unknown.\n:cvar KNOWN: Known attribute.\n:ivar: Malformed.\n:vartype KNOWN: int\n:vartype: broken\n:raises: Nothing.\n:returns\n:rtype: int\n:rtype: str\n")
+NONEMPTY_OPTIONS = {"warn_unknown_params": True, "trim_doctest_flags": False}
+
+
+def _quoted(text: str, indent: int) -> str:
+    pad = " " * indent
+    body = "\n".join((pad + line if line else "") for line in text.split("\n"))
+    return f'{pad}"""{body.lstrip()}\n{pad}"""\n'
+
+
+def write_docstring_package(rng, root: Path, pkg: str):
+    """a small package whose docstrings (one of each style on every kind of object, plus a random one) make every parser warn"""
+    mod = [_quoted(DOC_SPHINX, 0), "from __future__ import annotations\nimport os\nfrom typing import TYPE_CHECKING\n",
+           f"from {pkg} import sibling\n", "if TYPE_CHECKING:\n    from nowhere_c09.conf import settings\n", "KNOWN: int = 1\n", _quoted(DOC_GOOGLE, 0)]
+    for i, doc in enumerate([DOC_GOOGLE, DOC_NUMPY, DOC_SPHINX]):
+        mod.append(f"def fn{i}(a, b: int = 0, *args, k=None, **kwargs):\n" + _quoted(doc, 4) + "    return a\n")
+        mod.append(f"class K{i}:\n" + _quoted(doc, 4) + f"    KNOWN: int = {i}\n" + _quoted(doc, 4)
+                   + "    def __init__(self, a):\n" + _quoted(doc, 8) + "        self.inst = a\n" + _quoted(doc, 8)
+                   + "    @property\n    def prop(self):\n" + _quoted(doc, 8) + "        return 1\n")
+    mod.append("def rnd():\n" + gen_docstring(rng, 4) + "    return None\n")
+    files = {f"{pkg}/__init__.py": "".join(mod), f"{pkg}/sibling.py": _quoted(DOC_NUMPY, 0) + "VALUE: int = 1\n" + _quoted(DOC_SPHINX, 0)}
+    write_files(root, files)
+    return {"package": pkg, "variant": "docstring-matrix", "search_paths": ["."], "files": files, "stubs": False, "namespace_dirs": []}
+
+
+def docstring_matrix(rng, everything: bool):
+    out = []
+    for parser in (None, "google", "numpy", "sphinx", "auto"):
+        opts = [None, {}, dict(NONEMPTY_OPTIONS)]
+        if parser == "auto":
+            opts.append({"style_order": ["numpy", "sphinx", "google"], "default": "google", "warn_unknown_params": True})
+        for options in opts:
+            for mode in ("static", "dynamic"):
+                out.append((mode, parser, rng.random() < 0.5, options))
+    return out
+
+
+def run_docstring_matrix(st: State, root: Path, n: int, direct_only=False):
+    ctx = st.ctx
+    sys.path.insert(0, str(root))
+    try:
+        for i in range(n):
+            layout = write_docstring_package(ctx.rng, root, f"c09d{ctx.seed % 100000}_{os.getpid()}_{i}{'d' if direct_only else ''}")
+            run_layout(st, root, layout, docstring_matrix(ctx.rng, not ctx.quick), ["."], direct_only=direct_only)
+    finally:
+        sys.path.remove(str(root))
+
+
+def run_cli(root: Path, args):
+    """`python -m griffe <args>` from the scratch root: (return code, {package: document} | None, stderr)"""
+    import subprocess
+    from harness.common.framework import REPO
+    out = root / f"cli_{os.getpid()}.json"
+    if out.exists():
+        out.unlink()
+    env = dict(os.environ, PYTHONPATH=f"{REPO}/src", PYTHONHASHSEED="0")
+    try:
+        p = subprocess.run([sys.executable, "-m", "griffe", *args, "-o", str(out)], cwd=root, env=env, capture_output=True, text=True, timeout=120)
+    except subprocess.TimeoutExpired:
+        return -1, None, "timeout"
+    if p.returncode != 0 or not out.exists():
+        return p.returncode, None, p.stderr
+    try:
+        docs = json.loads(out.read_text())
+    except ValueError as e:
+        return p.returncode, None, f"output is not JSON: {e}"
+    finally:
+        out.unlink()
+    return p.returncode, docs, p.stderr
+
+
+def run_cli_dumps(st: State, root: Path, everything: bool):
+    """`griffe dump -f` with the -d / -D / -x combinations: it must produce a document per package and each must validate"""
+    ctx = st.ctx
+    layout = write_docstring_package(ctx.rng, root, f"c09cli{ctx.seed % 100000}_{os.getpid()}")
+    combos = []
+    for d in (None, "google", "numpy", "sphinx", "auto"):
+        for D in (None, "{}", json.dumps(NONEMPTY_OPTIONS)):
+            for x in (False, True):
+                combos.append((d, D, x))
+    if not everything:
+        must = [(None, json.dumps(NONEMPTY_OPTIONS), False), ("sphinx", None, False), ("google", json.dumps(NONEMPTY_OPTIONS), True)]
+        combos = must + ctx.rng.sample([c for c in combos if c not in must], 3)
+    for d, D, x in combos:
+        args = ["dump", layout["package"], "-f", "-s", ".", "-L", "CRITICAL"] + (["-d", d] if d else []) + (["-D", D] if D is not None else []) + (["-x"] if x else [])
+        case = {"stream": "cli", "cli_args": args, "package": layout["package"], "files": layout["files"]}
+        ctx.observe("cli", f"-d {d} -D {'absent' if D is None else 'empty' if D == '{}' else 'options'}{' -x' if x else ''}")
+        rc, docs, err = run_cli(root, args)
+        ctx.case({k: v for k, v in case.items() if k != "files"}, True)
+        if docs is None:
+            ctx.property_failure(case, {"griffe_dump_failed": f"rc={rc}", "stderr": err[-400:]}, finding=None)
+            continue
+        for name, doc in docs.items():
+            if not st.auth.valid(doc):
+                ctx.property_failure(case, {"package": name, "jsonschema_errors": [leaf_repr(lf) for lf in st.auth.leaves(doc)][:5]}, finding=None)
+
+
 CONFIGS = [("static", None, False), ("static", "google", True), ("static", "numpy", False), ("static", "sphinx", True),
            ("dynamic", None, False), ("dynamic", "google", True), ("static", None, True), ("dynamic", "numpy", False)]
 
@@ -1726,6 +1847,8 @@ def explore(ctx):
     replay_corpus(st, root)
     run_packages(st, root, ctx.budget(6, 48))
     run_passthrough(st, root, ctx.budget(6, 40))
+    run_docstring_matrix(st, root, ctx.budget(1, 4))
+    run_cli_dumps(st, root, not ctx.quick)
     ctx.notes.append(f"packages done at {ctx.elapsed():.1f}s")
     cwd = os.getcwd()
     os.chdir(root)
@@ -1755,6 +1878,8 @@ def search(ctx):
     root = (ctx.scratch / "search").resolve()
     root.mkdir(parents=True, exist_ok=True)
     run_packages(st, root, ctx.budget(12, 80), direct_only=True)
+    run_docstring_matrix(st, root, ctx.budget(1, 4), direct_only=True)
+    run_cli_dumps(st, root, not ctx.quick)
     cwd = os.getcwd()
     os.chdir(root)
     try:
@@ -1770,6 +1895,18 @@ def replay(ctx, data):
     case = data.get("failing_input") or {}
     files, node = case.get("files"), case.get("node")
     rc = 0
+    if files and case.get("cli_args"):
+        root = (ctx.scratch / "replay").resolve()
+        write_files(root, files)
+        rc_cli, docs, err = run_cli(root, case["cli_args"])
+        import shutil
+        shutil.rmtree(ctx.scratch, ignore_errors=True)
+        if docs is None:
+            print(f"REPLAY C09: `griffe {' '.join(case['cli_args'])}` fails (rc={rc_cli}): {err[-300:]}")
+            return 1
+        bad = [n for n, d in docs.items() if not st.auth.valid(d)]
+        print(f"REPLAY C09: griffe dump produced {len(docs)} document(s), {len(bad)} rejected by the schema")
+        return 1 if bad else 0
     if files and case.get("package"):
         root = (ctx.scratch / "replay").resolve()
         write_files(root, files)
@@ -1779,7 +1916,7 @@ def replay(ctx, data):
         try:
             _top, doc = load_and_dump(root, case["package"], case.get("mode", "static"), case.get("parser"), bool(case.get("resolve_aliases")),
                                       search_paths=case.get("search_paths") or ["."], cwd=case.get("cwd") or ".",
-                                      stubs=bool(case.get("find_stubs_package")))
+                                      stubs=bool(case.get("find_stubs_package")), options=case.get("docstring_options"))
         except Exception as e:  # noqa: BLE001
             print(f"REPLAY C09: load or dump raises {type(e).__name__}: {e}")
             return 1
